@@ -13,6 +13,7 @@ import ast
 from ..core import rule, AnalysisError
 from ..engine.facts import dotted, const, src, walk_func
 from .common import calls
+from . import c18  # precedence (coding comment > input_encoding > utf-8) is registered for C20 there
 
 # construct -> (parsetree class, expression(s) the scanned code must include)
 REQUIRED = {
@@ -83,7 +84,7 @@ def dispatch_exhaustive(ctx):
         cur = n
         while len(cur.orelse) == 1 and isinstance(cur.orelse[0], ast.If):
             cur = cur.orelse[0]
-        if cur.orelse and isinstance(cur.orelse[0], ast.Continue):
+        if cur.orelse and any(isinstance(x, ast.Continue) for x in cur.orelse) and not any(isinstance(x, ast.Assign) and src(x.targets[0]) == "code" for x in cur.orelse):
             chain_end = cur
     ctx.check(chain_end is not None, "else-continue", db.where(fn), "unknown node kinds are not skipped", "anything else is skipped")
     # ControlLine end lines carry no code
@@ -165,3 +166,61 @@ def sub_span(ctx):
     else:
         ctx.violation("span:ext.extract#tag-attribute-line", db.where(pp[0]) if pp else db.where(fn),
                       "messages in the name=/args=/expr= attribute of a tag that spans several lines are reported on the tag's first line (the parse tree keeps no attribute positions)")
+
+
+@rule("C20.comment-window", min_instances=2)
+def comment_window(ctx):
+    """translator comments are attached only to the construct they immediately precede: every node other than a ## comment (or blank text between comments) ends comment collection, on every path through the scan loop"""
+    db = ctx.db
+    from ..engine import cfg as cfgmod
+    fn = db.func("ext.extract.MessageExtractor.extract_nodes")
+    loops = [n for n in walk_func(fn) if isinstance(n, ast.For) and src(n.iter) == "nodes"]
+    ctx.require(loops, "extract_nodes: scan loop not found")
+    lp = loops[0]
+    wh = ast.While(test=ast.Constant(value=True), body=lp.body, orelse=[])
+    ast.fix_missing_locations(wh)
+    g = cfgmod.CFG([wh], "extract-loop")
+    head = [n for n in g.nodes if n.stmt is wh][0]
+    resets = [n for n in g.nodes if isinstance(n.stmt, ast.Assign) and src(n.stmt.targets[0]) == "in_translator_comments" and const(n.stmt.value) is False]
+    # entry points of the dispatch that handles everything except comments / blank text
+    chain = [s for s in lp.body if isinstance(s, ast.If) and isinstance(s.test, ast.Call) and dotted(s.test.func) == "isinstance" and "Comment" not in src(s.test)]
+    ctx.require(chain, "extract_nodes: node dispatch not found")
+    start = g.nodes_of(chain[0])
+    ctx.require(start, "dispatch not in CFG")
+    bad = g.path_avoiding(start[0], [head], resets, kinds=("n",))
+    if bad:
+        last = [n for n in bad if n.stmt is not None and n.stmt is not wh]
+        ctx.violation("window:ext.extract#no-reset:%s" % (type(last[-1].stmt).__name__ + "@" + _branch_of(last, lp)), db.where(last[-1].stmt) if hasattr(last[-1].stmt, "_mod") else db.where(fn),
+                      "a node that is neither a comment nor blank text can be passed over without ending translator-comment collection (path %s): a later untagged ## remark and the stale tagged comment are then attached to a message they do not immediately precede" % g.fmt_path(bad))
+    else:
+        ctx.ok("window:ext.extract#reset-on-every-path", db.where(lp), "every non-comment node ends comment collection")
+    cm = [s for s in lp.body if isinstance(s, ast.If) and "parsetree.Comment" in src(s.test)]
+    ctx.check(bool(cm) and "startswith(comment_tag)" in src(cm[0]) and "in_translator_comments = True" in src(cm[0]), "window.starts-with-tag", db.where(cm[0]) if cm else db.where(lp), "comment collection does not start at a comment beginning with a configured tag", "starts at a tagged ## comment")
+    ctx.check("used_translator_comments" in src(lp) and "translator_comments = []" in src(lp), "window.consumed", db.where(lp), "comments are not cleared once attached", "cleared after use")
+
+
+def _branch_of(path_nodes, lp):
+    for n in reversed(path_nodes):
+        st = n.stmt
+        if isinstance(st, ast.If) and isinstance(st.test, ast.Call) and dotted(st.test.func) == "isinstance":
+            return src(st.test.args[1]).split(".")[-1]
+    return "else"
+
+
+@rule("C20.code-unmodified", min_instances=4)
+def code_unmodified(ctx):
+    """the text handed to the Python extractor is the fragment exactly as written (leading newlines included), so that line numbers inside multi-line constructs are right"""
+    db = ctx.db
+    pc = db.func("ast.PythonCode.__init__")
+    first = [s for s in pc.body if isinstance(s, ast.Assign) and dotted(s.targets[0]) == "self.code"]
+    ctx.check(bool(first) and isinstance(first[0].value, ast.Name) and first[0].value.id == pc.args.args[1].arg, "PythonCode.code", db.where(pc), "PythonCode.code is not the code as given", "self.code = code (unmodified)")
+    for cls, param in (("Expression", "text"), ("Code", "text")):
+        init = db.func("parsetree.%s.__init__" % cls)
+        c = [x for x in walk_func(init) if isinstance(x, ast.Call) and dotted(x.func) == "ast.PythonCode"]
+        ok = bool(c) and isinstance(c[0].args[0], ast.Name) and c[0].args[0].id == param
+        ctx.check(ok, "fragment:" + cls, db.where(c[0]) if c else db.where(init), "%s parses `%s` instead of its text as written: stripped leading newlines shift every reported line of a multi-line construct" % (cls, src(c[0].args[0]) if c else None), "PythonCode(%s) unmodified" % param)
+    fd = db.func("ast.FunctionDecl.__init__")
+    ctx.check(any(isinstance(s, ast.Assign) and dotted(s.targets[0]) == "self.code" and src(s.value) == "code" for s in fd.body), "FunctionDecl.code", db.where(fd), "FunctionDecl.code is not the declaration as given", "self.code = code")
+    me = db.func("lexer.Lexer.match_expression")
+    ap = [c for c in walk_func(me) if isinstance(c, ast.Call) and dotted(c.func) == "self.append_node"]
+    ctx.check(bool(ap) and src(ap[0].args[1]) == "text", "lexer.expression-text", db.where(me), "the lexer does not hand the expression text as scanned to the Expression node", "Expression(text as scanned)")
